@@ -3,16 +3,31 @@
 _PushbackSequence, split).
 
 Model: lean/BreezyVerif/Model/C50.lean — `tokens`/`split` (structural) and the
-literal push-back machine `mTokens`/`splitM`; theorems in Props/C50.lean.
+literal push-back machine `mTokens`/`splitM`; theorems in Props/C50.lean.  The
+general theorem is `tokens_mixed_line`: a command line of arguments, each a run
+of quoted (`quote a`, any `a`) and unquoted (non-empty, ordinary characters and
+backslashes, no trailing backslash directly before another segment) segments,
+arguments preceded by arbitrary Unicode whitespace (non-empty between
+arguments) plus optional trailing whitespace, is split into exactly one token
+per argument.  `tokens_args_and_words` (each item `quote a` or a plain word),
+`tokens_join_quote_ws` (round trip with arbitrary whitespace separators) and
+the original `tokens_join_quote` (joined with single spaces) are instances.
 
 T2 (every run):
  * every string over {a, space, ", ', \\} up to length L (quick 7, thorough 8),
    both `single_quotes_allowed` values: list(Splitter(s, sq)) — tokens *and*
    quoted flags — against `tok` (structural model) and `mtok` (literal machine);
+ * every string over {a, b, space, TAB, ", ', \\} up to length L2 (quick 6,
+   thorough 7) that is not already in the first domain, same comparison;
  * random strings over a wide alphabet (Unicode whitespace, look-alikes that
    are not whitespace, astral characters, long backslash runs);
  * random argument lists: the reference quoting (`py_quote`, the documented
    rules) against the model's `quote`/`joinSp`, and Splitter on the result;
+ * mixed command lines (systematic small ones, then random): the driver op
+   `mixed` lays the line out with the model's `layout`, evaluates the
+   hypotheses of `tokens_mixed_line` on the generated items and returns the
+   tokens the theorem promises — compared with the line built here and with
+   the tokens of the real Splitter; the line also goes through tok/mtok;
  * the whitespace predicate on every code point 0..0x10FFFF against
    `_whitespace_match`.
 There is no rejection path (every str is accepted); the "malformed" stream is
@@ -21,13 +36,17 @@ unterminated quotes / trailing backslash runs, compared in full.
 Oracle (independent of the model, on the real code): for every argument list
 `split(" ".join(quote(a) for a in args), sq) == args`; non-empty words without
 quotes/whitespace (backslashes allowed) separated by arbitrary Unicode
-whitespace come back unchanged and unquoted; for every input string
+whitespace come back unchanged and unquoted; every mixed command line
+(quoted/unquoted segments, separators drawn from all 19 sampled whitespace
+characters incl. TAB, LF, U+00A0, U+2003, U+3000, leading/trailing whitespace)
+gives exactly its arguments with the right quoted flags; for every input string
 the concatenated tokens are a subsequence of the input, the characters outside
 the quoting syntax (not whitespace / allowed quote / backslash) survive in
 order, no unquoted token is empty, and split() == [t for _, t in Splitter].
+`stream_seconds` in the evidence gives the cost of each stream.
 
 Mutants this was built against (scratch worktree; each reported as VIOLATION
-with the concrete input shown, found by the oracle, except M8):
+with the concrete input shown, found by the oracle):
  M1 _Backslash: `self.count // 2` -> `(self.count + 1) // 2`      args=['"']
  M2 _Backslash: odd/even test swapped (`% 2 == 1` -> `% 2 == 0`)   args=['\\\\\\']
  M3 _Backslash.finish dropped (trailing backslashes lost)          words=['\\']
@@ -36,23 +55,33 @@ with the concrete input shown, found by the oracle, except M8):
  M6 _Word: whitespace test replaced by `next_char == " "`          <TAB>b<TAB>a<TAB>
  M7 _Backslash non-quote branch: pushback dropped                  '"\\\'"' (sq off)
  M8 _Word: `_Quotes(next_char, self)` -> exit to `_Whitespace()`: split() is
-    unchanged, only the `quoted` flag of `a` + three double quotes differs — reported by T2
-    (model vs Splitter) as no-failing-input-found
+    unchanged, only the `quoted` flag differs — formerly T2 only, now the mixed
+    oracle: line b + three double quotes + c + double quote reported quoted
  M9 _Backslash: `in context.allowed_quote_chars` -> `== '"'`        args=["\\'"] (sq on)
  M11 _Whitespace: whitespace never ends a token                    args=['', '']
+ M12 _Whitespace: a quoted token in progress is ended by ' ' only  mixed '""<TAB>b' -> one token
+ M13 _Whitespace: ... not ended by code points >= 0x3000           mixed '""<U+3000>b'
+ M14 _Quotes: closing quote ends the token when exit is _Whitespace mixed '""b' -> two tokens
+ M15 _Word: opening quote sets `context.quoted = True`             mixed 'b""' reported quoted
+    (M12-M15 pass every older oracle: they were T2 mismatches only)
  H1 harmless: `_Word.process` rewritten with early returns and `token += [c]`
- H2 harmless: push-back `pop()` -> `pop(0)` (at most one element) — both clean.
+ H2 harmless: push-back `pop()` -> `pop(0)` (at most one element)
+ H3 harmless: `_whitespace_match(c)` -> `c.isspace()`, `append("")` -> `extend([""])` — all clean.
 """
 import itertools
 
 THEOREMS = [
+    "tokens_mixed_line", "split_mixed_line", "splitM_mixed_line", "tokens_args_and_words",
+    "tokens_join_quote_ws", "split_join_quote_ws", "splitM_join_quote_ws",
     "tokens_join_quote", "split_join_quote", "split_unquoted_words", "split_sublist",
     "split_keeps_plain", "tokens_unquoted_nonempty", "split_total", "splitM_join_quote",
 ]
-RULE = ("case = (single_quotes_allowed, input string) or (sq, argument list); exhaustive over "
-        "{a,space,\",',\\}^<=L plus random wide-alphabet strings and random argument lists; "
-        "non-trivial = the input contains a quote or a backslash (the state machine leaves the "
-        "plain word/whitespace states)")
+RULE = ("case = (single_quotes_allowed, input string), (sq, argument list) or (sq, mixed line = "
+        "[(whitespace, [quoted/unquoted segments])], trailing whitespace); exhaustive over "
+        "{a,space,\",',\\}^<=L and {a,b,space,TAB,\",',\\}^<=L2 plus random wide-alphabet strings, "
+        "random argument lists, word lists and mixed lines; non-trivial = the input contains a quote "
+        "or a backslash (the state machine leaves the plain word/whitespace states); a mixed line is "
+        "non-trivial when it has a quoted segment")
 ASSUMPTIONS = ["Python str is modelled as a list of Unicode scalar values (no lone surrogates)"]
 TRUSTED = [
     "re's \\s on one character is modelled by the explicit table isWs, compared with _whitespace_match on all 0x110000 code points on every run",
@@ -61,6 +90,9 @@ TRUSTED = [
 
 BS = "\\"
 EXH_ALPHA = "a \"'\\"
+# second exhaustive domain: a second plain character and TAB (a second whitespace
+# character), up to length L2; strings already in the first domain are skipped
+EXH_ALPHA2 = "ab \t\"'\\"
 WS_CHARS = " \t\n\r\x0b\x0c\x1c\x1f\x85\xa0\u1680\u2000\u2003\u200a\u2028\u2029\u202f\u205f\u3000"
 NOT_WS = "\x00\x08\x0e\x1b\x7f\u200b\u2060\ufeff\u180e"
 WIDE_ALPHA = ("ab-/.*\xb5\u1234\U0001f600" + NOT_WS)
@@ -164,6 +196,133 @@ def _rand_words(rng, sq):
     return items, trail
 
 
+# ---- mixed command lines: arguments made of quoted ("q") and unquoted ("w")
+# segments, each argument preceded by whitespace (theorem tokens_mixed_line)
+
+def _mixed_line(sq, items, trail):
+    return "".join(sep + "".join(py_quote(v, sq) if k == "q" else v for k, v in segs)
+                   for sep, segs in items) + trail
+
+
+def _mixed_expected(items):
+    """one token per argument: the segment texts concatenated; quoted iff the
+    argument starts with a quoted segment"""
+    return [(segs[0][0] == "q", "".join(v for _, v in segs)) for _, segs in items]
+
+
+def _mixed_case(sq, items, trail):
+    return dict(kind="mixed", sq=sq, trail=enc(trail),
+                items=[[enc(sep), [[k, enc(v)] for k, v in segs]] for sep, segs in items])
+
+
+def _mixed_req(sq, items, trail):
+    return "mixed %s %s %s" % ("T" if sq else "F", enc(trail), ",".join(
+        enc(sep) + "/" + "+".join(k + enc(v) for k, v in segs) for sep, segs in items) or "-")
+
+
+def _mixed_oracle(ctx, cm, sq, items, trail):
+    line = _mixed_line(sq, items, trail)
+    want = _mixed_expected(items)
+    got = list(cm.Splitter(line, single_quotes_allowed=sq))
+    if got != want:
+        ctx.violation(_mixed_case(sq, items, trail),
+                      "mixed command line is not split into its arguments: line=%r sq=%r want=%r tokens=%r"
+                      % (line, sq, want, got))
+    elif cm.split(line, single_quotes_allowed=sq) != [t for _, t in want]:
+        ctx.violation(_mixed_case(sq, items, trail), "split() differs from the arguments on %r" % line)
+    return line, got
+
+
+def _rand_word_seg(rng, sq, last):
+    alpha = WIDE_ALPHA + ("" if sq else "'")
+    w = []
+    for _ in range(rng.randint(1, 5)):
+        w.append(BS * rng.choice((1, 1, 2, 3)) if rng.random() < 0.3 else rng.choice(alpha))
+    w = "".join(w)
+    if not last and w.endswith(BS):
+        # hypothesis itemOk: no trailing backslash directly before another segment
+        w += rng.choice(alpha)
+    return w
+
+
+def _rand_sep(rng, lo):
+    """whitespace run of length >= lo (a single character in about half the cases)"""
+    n = max(lo, 1) if rng.random() < 0.45 else rng.randint(lo, 3)
+    return "".join(rng.choice(WS_CHARS) for _ in range(n))
+
+
+def _rand_mixed(rng, sq):
+    mode = rng.random()      # < .25: every argument one quoted segment (the round trip with
+    items = []               # arbitrary separators); < .33: plain words only; else mixed
+    for i in range(rng.choice((0, 1, 2, 2, 3, 3, 4, 6))):
+        if mode < 0.25:
+            kinds = "q"
+        elif mode < 0.33:
+            kinds = "w"
+        else:
+            r = rng.random()
+            kinds = "q" if r < 0.35 else "w" if r < 0.65 else \
+                [rng.choice("qw") for _ in range(rng.choice((2, 2, 3, 4)))]
+        segs = []
+        for j, k in enumerate(kinds):
+            segs.append((k, _rand_arg(rng) if k == "q" else _rand_word_seg(rng, sq, j == len(kinds) - 1)))
+        sep = _rand_sep(rng, 1) if i else (_rand_sep(rng, 0) if rng.random() < 0.5 else "")
+        items.append((sep, segs))
+    trail = _rand_sep(rng, 1) if rng.random() < 0.4 else ""
+    return items, trail
+
+
+def _small_mixed():
+    """systematic small mixed lines (so that a failure is reported on a small input)"""
+    small = ["".join(t) for n in range(3) for t in itertools.product(EXH_ALPHA, repeat=n)]
+    few = ["", "a", " ", '"', "'", BS, "a b", BS + '"', BS + BS]
+    args = [[("q", a)] for a in small]
+    args += [[("w", w)] for w in ("b", "b" + BS, BS + "b", BS, BS + BS)]
+    args += [[("w", "b"), ("q", a)] for a in few] + [[("q", a), ("w", "b")] for a in few]
+    args += [[("q", a), ("w", BS)] for a in few] + [[("q", a), ("q", "c")] for a in few]
+    args += [[("w", "b="), ("q", a), ("w", BS + "c" + BS)] for a in few]
+    args += [[("w", "b"), ("q", a), ("q", "c")] for a in few]
+    W, Q0, Q1 = [("w", "b")], [("q", "")], [("q", "c d")]
+    out = []
+    for sep in (" ", "\t", "\n", "\xa0", "\u2003", "\u3000", "\t "):
+        for it in args:
+            for sq in (True, False):
+                out.append((sq, [("", it)], ""))
+                out.append((sq, [(sep, it)], sep))
+                out.append((sq, [("", it), (sep, W)], ""))
+                out.append((sq, [("", W), (sep, it)], ""))
+                out.append((sq, [("", it), (sep, Q0)], sep))
+                out.append((sq, [(sep, Q1), (sep, it), (sep, it)], ""))
+    return out
+
+
+def _run_mixed(ctx, cm, lists, tag):
+    """lists: (sq, items, trail).  Oracle on the real Splitter; the model lays the
+    line out itself, confirms the hypotheses of tokens_mixed_line and gives the
+    tokens the theorem promises; then the line goes through tok/mtok as well."""
+    cases, lines, outs, str_items = [], [], [], []
+    for sq, items, trail in lists:
+        line, got = _mixed_oracle(ctx, cm, sq, items, trail)
+        case = _mixed_case(sq, items, trail)
+        nseg = [len(segs) for _, segs in items]
+        kinds = set(k for _, segs in items for k, _ in segs)
+        ctx.case([tag, sq, case["items"], case["trail"]], nontrivial=("q" in kinds))
+        ctx.count("mixed-nargs:%d" % min(len(items), 6))
+        ctx.count("mixed-kinds:%s" % ("+".join(sorted(kinds)) or "none"))
+        if any(n > 1 for n in nseg):
+            ctx.count("mixed-compound-arg")
+        if any(sep and sep[0] != " " for sep, _ in items[1:]):
+            ctx.count("mixed-nonspace-separator")
+        if any(k == "w" and v.endswith(BS) for _, segs in items for k, v in segs):
+            ctx.count("mixed-word-trailing-backslash")
+        cases.append(case)
+        lines.append(_mixed_req(sq, items, trail))
+        outs.append("T|%s|%s" % (enc(line), enc_toks(got)))
+        str_items.append((sq, line))
+    ctx.diff(cases, lines, outs)
+    _run_strings(ctx, cm, str_items, tag + "-line")
+
+
 def _run_strings(ctx, cm, items, tag):
     """items: list of (sq, s).  impl vs both models + string oracle."""
     cases, lines, outs = [], [], []
@@ -232,17 +391,31 @@ def _check_ws(ctx, cm):
     ctx.extra["whitespace_code_points"] = len(real)
 
 
-def run(ctx, L=None, nrand=None, nargs=None):
+def run(ctx, L=None, nrand=None, nargs=None, L2=None, nmixed=None):
+    import time
     cm = _impl()
     L = L or ctx.pick(7, 8)
+    L2 = L2 or ctx.pick(6, 7)
     nrand = nrand or ctx.pick(6000, 60000)
     nargs = nargs or ctx.pick(6000, 60000)
+    nmixed = nmixed or ctx.pick(5000, 50000)
+    secs = ctx.extra.setdefault("stream_seconds", {})
+    t0 = [time.time()]
+
+    def lap(name):
+        now = time.time()
+        secs[name] = round(secs.get(name, 0) + now - t0[0], 1)
+        t0[0] = now
     _check_ws(ctx, cm)
+    lap("ws-table")
 
     # fixed corner cases first (also the cases of test_cmdline)
     corner = ['"\\\\\\\\" *.py', '"\\\\\\\\\\" *.py"', '\\\\\\\\" *.py"', '\\\\\\\\\\" *.py', '"\\\\',
               "a '' c", "''", '""', 'a"" b', '"a"b', "\\", "\\ ", ' \\" ', '"\\\'"', "a\u3000b", "a\u200bb"]
+    corner += ['foo "a b" bar', 'foo\t"a b"\u3000bar', '--using="my tool" x', '"a"\tb', '"a"\u3000"b"', 'a\\ "b"',
+               'a\\"b"', '"a"b"c"', "b\t'a' c", '"a""b"\n']
     _run_strings(ctx, cm, [(sq, s) for s in corner for sq in (True, False)], "corner")
+    lap("corner")
 
     # exhaustive small strings
     items = []
@@ -255,6 +428,24 @@ def run(ctx, L=None, nrand=None, nargs=None):
         _run_strings(ctx, cm, items[i:i + 100000], "exh")
     ctx.exhaustive = True
     ctx.extra["exhaustive_domain"] = dict(alphabet=list(EXH_ALPHA), max_len=L, strings=len(items))
+    lap("exhaustive-5")
+
+    # second exhaustive domain: two plain characters, space and TAB; the strings
+    # over the first alphabet were done above
+    first = set(EXH_ALPHA)
+    items = []
+    for n in range(1, L2 + 1):
+        for t in itertools.product(EXH_ALPHA2, repeat=n):
+            if first.issuperset(t):
+                continue
+            s = "".join(t)
+            items.append((True, s))
+            items.append((False, s))
+    for i in range(0, len(items), 100000):
+        _run_strings(ctx, cm, items[i:i + 100000], "exh2")
+    ctx.extra["exhaustive_domain_2"] = dict(alphabet=list(EXH_ALPHA2), max_len=L2, strings=len(items),
+                                            note="strings over the first alphabet are not repeated")
+    lap("exhaustive-7")
 
     # random wide-alphabet strings ("malformed" = unterminated quote / trailing backslash: counted)
     rng = ctx.rng
@@ -266,6 +457,7 @@ def run(ctx, L=None, nrand=None, nargs=None):
             ctx.count("malformed-tail")
         items.append((rng.random() < 0.5, s))
     _run_strings(ctx, cm, items, "rand")
+    lap("random-strings")
 
     # argument lists through quote -> join -> split: all small ones first
     # (so that a failure is reported on a small input), then random ones
@@ -289,6 +481,7 @@ def run(ctx, L=None, nrand=None, nargs=None):
         str_items.append((sq, line))
     ctx.diff(cases, lines, outs)
     _run_strings(ctx, cm, str_items, "quoted-line")
+    lap("quoted-arglists")
 
     # unquoted words separated by arbitrary (Unicode) whitespace
     str_items = []
@@ -310,10 +503,23 @@ def run(ctx, L=None, nrand=None, nargs=None):
         ctx.count("nwords:%d" % len(items))
         str_items.append((sq, line))
     _run_strings(ctx, cm, str_items, "word-line")
+    lap("word-lists")
+
+    # mixed command lines: quoted and unquoted segments, arbitrary whitespace
+    # separators, leading/trailing whitespace (tokens_mixed_line and its
+    # corollaries tokens_args_and_words / tokens_join_quote_ws)
+    mixed = _small_mixed()
+    ctx.extra["mixed_small_lines"] = len(mixed)
+    for _ in range(nmixed):
+        sq = rng.random() < 0.5
+        mixed.append((sq,) + _rand_mixed(rng, sq))
+    for i in range(0, len(mixed), 50000):
+        _run_mixed(ctx, cm, mixed[i:i + 50000], "mixed")
+    lap("mixed-lines")
 
 
 def widen(ctx):
-    run(ctx, L=8, nrand=60000, nargs=60000)
+    run(ctx, L=8, nrand=60000, nargs=60000, L2=6, nmixed=50000)
 
 
 def replay(ctx, case):
@@ -321,6 +527,14 @@ def replay(ctx, case):
 
     def dec(e):
         return "" if e == "_" else "".join(chr(int(x, 16)) for x in e.split("."))
+    if isinstance(case, dict) and case.get("kind") == "mixed":
+        sq = case["sq"]
+        items = [(dec(sep), [(k, dec(v)) for k, v in segs]) for sep, segs in case["items"]]
+        trail = dec(case["trail"])
+        line, toks = _mixed_oracle(ctx, cm, sq, items, trail)
+        m = ctx.model([_mixed_req(sq, items, trail), "tok %s %s" % ("T" if sq else "F", enc(line))])
+        return dict(case=case, line=line, arguments=_mixed_expected(items), impl=enc_toks(toks), impl_tokens=toks,
+                    model_hyp_line_tokens=m[0], model=m[1], oracle_failures=[v["what"] for v in ctx.violations])
     if isinstance(case, dict) and case.get("kind") == "words":
         sq = case["sq"]
         items = [(dec(a), dec(b)) for a, b in case["items"]]
